@@ -215,7 +215,13 @@ func (u *Universe) AddMethodTypes(meth []*Type, quick bool, seed int64, nSample 
 		case "map":
 			return t.Key.K == "basic" && t.Key.B == "int" && comp(t.E)
 		case "struct":
-			return t.Meth == "" && t.Pkg == "local" && len(t.Fields) == 1 && exported(t.Fields[0].Name) && comp(t.Fields[0].T)
+			if t.Meth != "" || t.Pkg != "local" || len(t.Fields) != 1 || !exported(t.Fields[0].Name) {
+				return false
+			}
+			f := t.Fields[0].T
+			// directly, or nested in one more comparable local struct (compared with == as a whole)
+			return comp(f) || (f.K == "struct" && f.Meth == "" && f.Pkg == "local" && len(f.Fields) == 1 &&
+				exported(f.Fields[0].Name) && f.Fields[0].T.Meth != "")
 		}
 		return false
 	}
@@ -226,6 +232,10 @@ func (u *Universe) AddMethodTypes(meth []*Type, quick bool, seed int64, nSample 
 		} else {
 			rest = append(rest, t)
 		}
+	}
+	// fixed: a method-bearing struct nested in a comparable struct (compared with == as a whole)
+	for _, mk := range methOrder {
+		core = append(core, Struct("S3", "local", F("A", Struct("S2", "local", F("A", MStruct(mk))))))
 	}
 	add := core
 	if quick {
